@@ -22,6 +22,9 @@ variant, or one list of recordings handed to ``read``):
              component, empty file, unrecognised bytes)
   read       read(fnames, obspy_read_kwargs, degrees_from_north) for all shape
              combinations of {None, one value, per-recording list}
+  examples   the repository's own example files (not written by us), expected
+             values from obspy (binary formats) or a naive str.split parser
+             (SAF, PEER); anchors the reference writers to real files
 """
 import itertools
 import os
@@ -76,8 +79,8 @@ SPACES = {
                   naming=["BH", ""]),
         read=dict(dfn=DFN, kwargs=["none", "empty", "format"], pathtype=["str", "path"])),
     "saf": dict(
-        file=dict(payload=["ramp", "extreme", "inexact"], n=N_SAMPLES, rate=[100, 50, 250, 512],
-                  north_rot=[0, 15, 90, 350, None], newline=["\n", "\r\n"], padded=[True, False]),
+        file=dict(payload=["ramp", "extreme", "inexact"], n=N_SAMPLES, rate=[100, 50, 250, 512, 62.5],
+                  north_rot=[0, 15, 90, 350, None, 15.5], newline=["\n", "\r\n"], padded=[True, False]),
         read=dict(dfn=DFN, kwargs=["none", "empty"], pathtype=["str", "path"])),
     "minishark": dict(
         file=dict(payload=["ramp", "extreme", "inexact"], n=N_SAMPLES, rate=[250, 50, 100, 512],
@@ -96,7 +99,7 @@ SPACES = {
 # number of deviations from the default case that are enumerated completely
 K = {
     "quick": dict(mseed1=2, mseed3=2, sac=2, gcf=2, saf=2, minishark=2, peer=2),
-    "thorough": dict(mseed1=3, mseed3=3, sac=3, gcf=4, saf=4, minishark=None, peer=3),
+    "thorough": dict(mseed1=3, mseed3=3, sac=3, gcf=None, saf=4, minishark=None, peer=3),   # None = full product
 }
 
 MALFORMED = {
@@ -201,15 +204,17 @@ def _call_single(fnames, kwargs, dfn):
     return rec
 
 
-def judge_single(ctx, root, fam, detail, exp, res, dfn_arg):
-    """Compare one read_single outcome with the expectation; report; return digest."""
+def judge_single(ctx, root, fam, detail, exp, res, dfn_arg, cls="well-formed", cls_dfn=None):
+    """Compare one read_single outcome with the expectation; report; return digest.
+
+    ``cls`` names the input class in the violation keys."""
     ctx.count("validated")
     if isinstance(res, tuple) and res and res[0] == "raised":
         ctx.outcome(("raised", fam, res[1]))
         if exp.may_refuse and dfn_arg is None:
             ctx.count("refused_nonstandard_layout")
             return None
-        ctx.violation(f"C07:read_single:{fam}:well-formed:raised", root, detail=detail,
+        ctx.violation(f"C07:read_single:{fam}:{cls}:raised", root, detail=detail,
                       expected=_short_exp(exp, dfn_arg), observed=list(res),
                       explanation=f"read_single raised {res[1]} on a well-formed {fam} input")
         return None
@@ -220,12 +225,8 @@ def judge_single(ctx, root, fam, detail, exp, res, dfn_arg):
     if not _same(a0["ns"], a0["ew"], "exact"):
         ctx.count("swap_visible")
     # --- samples -----------------------------------------------------------
-    hit = None
-    for a in exp.alts:
-        if all(_same(o[c], a[c], exp.mode) for c in ("ns", "ew", "vt")):
-            hit = a
-            break
-    if hit is None:
+    hits = [a for a in exp.alts if all(_same(o[c], a[c], exp.mode) for c in ("ns", "ew", "vt"))]
+    if not hits:
         a = exp.alts[0]
         src = {}
         for c in ("ns", "ew", "vt"):
@@ -237,21 +238,21 @@ def judge_single(ctx, root, fam, detail, exp, res, dfn_arg):
                                       "ns and ew both hold the samples of the SAME file, the other "
                                       "horizontal file is dropped")
         else:
-            ctx.violation(f"C07:read_single:{fam}:well-formed:samples", root, detail=detail,
+            ctx.violation(f"C07:read_single:{fam}:{cls}:samples", root, detail=detail,
                           expected=_short_exp(exp, dfn_arg), observed=_short(o),
                           explanation="returned components do not hold the samples written for them; "
                                       f"returned component -> written component it equals: {src}")
         return dig
     # --- time step -----------------------------------------------------------
     if not all(abs(d - exp.dt) <= exp.dt_rtol * exp.dt for d in o["dt"]):
-        ctx.violation(f"C07:read_single:{fam}:well-formed:dt", root, detail=detail,
+        ctx.violation(f"C07:read_single:{fam}:{cls}:dt", root, detail=detail,
                       expected=exp.dt, observed=list(o["dt"]),
                       explanation="dt_in_seconds is not the file's time step")
     # --- orientation -----------------------------------------------------------
-    want = [_mod360(dfn_arg)] if dfn_arg is not None else [_mod360(v) for v in hit["dfn_file"]]
+    want = [_mod360(dfn_arg)] if dfn_arg is not None else [_mod360(v) for a in hits for v in a["dfn_file"]]
     if not any(abs(o["dfn"] - w) <= 1e-9 for w in want):
-        cls = "explicit" if dfn_arg is not None else "from-file"
-        ctx.violation(f"C07:read_single:{fam}:well-formed:degrees_from_north-{cls}", root, detail=detail,
+        src = "explicit" if dfn_arg is not None else "from-file"
+        ctx.violation(f"C07:read_single:{fam}:{cls_dfn or cls}:degrees_from_north-{src}", root, detail=detail,
                       expected=want, observed=o["dfn"],
                       explanation="degrees_from_north is neither the explicit argument modulo 360 nor "
                                   "the orientation stored in the file (0 when there is none)")
@@ -448,6 +449,22 @@ def _paths(fnames, pathtype):
 # ---------------------------------------------------------------------------
 # well-formed families
 
+def _input_class(fam, cfg):
+    """Input class named in the violation keys.  Real-valued SAF header entries
+    (the SESAME standard defines SAMP_FREQ and NORTH_ROT as real numbers) are
+    kept apart from the integer-valued ones of the example file."""
+    if fam == "saf":
+        tags = []
+        if float(cfg["rate"]) != int(cfg["rate"]):
+            tags.append("fractional-SAMP_FREQ")
+        if cfg["north_rot"] is not None and float(cfg["north_rot"]) != int(cfg["north_rot"]):
+            tags.append("fractional-NORTH_ROT")
+        if tags:
+            # (class for raised/samples/dt, class for the orientation)
+            return tags[0], tags[-1]
+    return "well-formed", "well-formed"
+
+
 def run_family(root, ctx, tier):
     fam = root["family"]
     cfg = root["file"]
@@ -466,12 +483,13 @@ def run_family(root, ctx, tier):
                 ctx.nontrivial_case((fam, cfg, var["label"], rd))
                 ctx.count("transitions")
                 res = _call_single(_paths(var["fnames"], rd["pathtype"]), _kwargs(fam, rd["kwargs"]), rd["dfn"])
-                dig = judge_single(ctx, root, fam, detail, var["exp"], res, rd["dfn"])
+                cls, cls_dfn = _input_class(fam, cfg)
+                dig = judge_single(ctx, root, fam, detail, var["exp"], res, rd["dfn"], cls=cls, cls_dfn=cls_dfn)
                 if dig is not None:
                     digests[var["label"]] = dig
-                if len(ctx.samples) < 2 and var["label"] == variants[-1]["label"]:
-                    ctx.sample(dict(detail, observed=None if dig is None else
-                                    _short(_obs(res)) if not isinstance(res, tuple) else list(res)))
+                if len(ctx.samples) < 2 and var is variants[-1]:
+                    ctx.sample(dict(detail, expected=_short_exp(var["exp"], rd["dfn"]),
+                                    observed=list(res) if isinstance(res, tuple) else _short(_obs(res))))
             # independence of the order, stated on its own (bit for bit)
             exp0 = variants[0]["exp"]
             if len(set(digests.values())) > 1 and not exp0.tie:
@@ -679,6 +697,8 @@ def run_malformed(root, ctx, tier):
                     if isinstance(res, tuple) and res and res[0] == "raised":
                         ctx.outcome(("refused", fmt, variant, res[1]))
                         ctx.count("refused")
+                        if len(ctx.samples) < 3 and kw == "none" and dfn is None:
+                            ctx.sample(dict(detail, expected="an exception", observed=list(res)))
                         continue
                     o = _obs(res)
                     ctx.outcome(("accepted", fmt, variant) + _obs_digest(o))
@@ -838,6 +858,8 @@ def _one_read(root, ctx, entries, labels, kshape, dshape, bare):
                       expected=m, observed=(len(got) if hasattr(got, "__len__") else repr(got)),
                       explanation="read() did not return one recording per entry")
         return
+    if len(ctx.samples) < 4:
+        ctx.sample(dict(detail, observed=[_short(_obs(g)) for g in got]))
     for i, (g, r) in enumerate(zip(got, refs)):
         og, orf = _obs(g), _obs(r)
         ctx.outcome(("read", labels[i]) + _obs_digest(og))
@@ -846,6 +868,79 @@ def _one_read(root, ctx, entries, labels, kshape, dshape, bare):
                           detail=dict(detail, element=i), expected=_short(orf), observed=_short(og),
                           explanation=f"read()[{i}] differs from read_single(fnames[{i}], kwargs_{i}, "
                                       f"degrees_from_north_{i})")
+
+
+# ---------------------------------------------------------------------------
+# the repository's own example files
+
+EXAMPLE_DIR = "/repo/test/data/input"
+EXAMPLES = {
+    "mseed_combined": ("MSEED", ["mseed_combined/ut.stn11.a2_c50.mseed"]),
+    "mseed_individual": ("MSEED", ["mseed_individual/ut.stn11.a2_c50_bh%s.mseed" % c for c in "zne"]),
+    "sac_little_endian": ("SAC", ["sac_little_endian/ut.stn11.a2_c50_%s.sac" % c for c in "zne"]),
+    "sac_big_endian": ("SAC", ["sac_big_endian/ut.stn11.a2_c50_%s.sac" % c for c in "zne"]),
+    "gcf": ("GCF", ["gcf/sample.gcf"]),
+    "saf": (None, ["saf/mt_20211122_133110.saf"]),
+    "peer": (None, ["peer/rsn942_northr_alh%s.vt2" % c for c in ("-up", "360", "090")]),
+}
+
+
+def example_expected(name, paths):
+    fmt = EXAMPLES[name][0]
+    if fmt is not None:
+        import obspy
+        traces = []
+        for p in paths:
+            traces += list(obspy.read(p, format=fmt))
+        if len(traces) != 3:
+            return None
+        by = {t.stats.channel[-1]: t for t in traces}
+        if sorted(by) != ["E", "N", "Z"]:
+            return None
+        alt = dict(ns=_f64(by["N"].data), ew=_f64(by["E"].data), vt=_f64(by["Z"].data), dfn_file=[0.0])
+        return Expected([alt], "exact", float(by["Z"].stats.delta), 0.0)
+    if name == "saf":
+        head, rows = F.parse_saf_naive(paths[0])
+        col = {head[f"CH{i}_ID"]: i for i in range(3)}
+        if len(rows) != int(head["NDAT"]):
+            return None
+        alt = {c: _f64([r[col[ch]] for r in rows]) for ch, c in LETTER_TO_COMP.items()}
+        layout = "".join(head[f"CH{i}_ID"] for i in range(3))
+        alt["dfn_file"], _ = _saf_dfn_file(layout, float(head["NORTH_ROT"]) if "NORTH_ROT" in head else None)
+        return Expected([alt], "f32", 1.0 / float(head["SAMP_FREQ"]))
+    if name == "peer":
+        parsed = [F.parse_peer_naive(p) for p in paths]
+        if any(len(v) != n for (_, n, _, v) in parsed):
+            return None
+        codes = [c for (c, _, _, _) in parsed]
+        vals = dict(vt=_f64(parsed[0][3]), ns=_f64(parsed[1][3]), ew=_f64(parsed[2][3]))
+        return peer_expected(tuple(codes), vals, parsed[0][2])
+    raise KeyError(name)
+
+
+def run_example(root, ctx, tier):
+    name = root["name"]
+    paths = [os.path.join(EXAMPLE_DIR, rel) for rel in EXAMPLES[name][1]]
+    if not all(os.path.isfile(p) and os.path.getsize(p) > 0 for p in paths):
+        ctx.count("example_files_unavailable")
+        return
+    exp = example_expected(name, paths)
+    if exp is None:
+        ctx.count("example_files_not_three_component")
+        return
+    orders = list(itertools.permutations(range(3))) if len(paths) == 3 else [None]
+    for order in orders:
+        fn = paths[0] if order is None else [paths[i] for i in order]
+        for dfn in (None, 33):
+            for pathtype in ("str", "path"):
+                ctx.count("states")
+                ctx.count("transitions")
+                ctx.nontrivial_case(("example", name, order, dfn, pathtype))
+                res = _call_single(_paths(fn, pathtype), None, dfn)
+                detail = dict(family="examples", name=name,
+                              files=[os.path.relpath(str(f), EXAMPLE_DIR) for f in (fn if order else [fn])],
+                              degrees_from_north=dfn, pathtype=pathtype)
+                judge_single(ctx, root, "example-" + name, detail, exp, res, dfn)
 
 
 # ---------------------------------------------------------------------------
@@ -885,6 +980,7 @@ def roots(tier, seed):
         for v in variants:
             out.append(dict(family="malformed", fmt=fmt, variant=v))
     out += _read_lists(tier)
+    out += [dict(family="examples", name=name) for name in EXAMPLES]
     return out
 
 
@@ -894,6 +990,8 @@ def run_root(root, ctx, tier):
         run_malformed(root, ctx, tier)
     elif fam == "read":
         run_read(root, ctx, tier)
+    elif fam == "examples":
+        run_example(root, ctx, tier)
     else:
         run_family(root, ctx, tier)
 
@@ -948,4 +1046,9 @@ def describe(tier):
             "vertical may be refused when no explicit orientation is given",
             "PEER codes equidistant from north: either horizontal may be north, but ns and ew must be different files",
             "'to single precision' = relative error <= 2**-22 per sample for SAF and MiniShark",
+            "SAF SAMP_FREQ and NORTH_ROT are real numbers in the SESAME standard: one fractional value of each "
+            "(62.5 Hz, 15.5 degrees) is part of the SAF alphabet, reported under its own input class",
+            "explicit degrees_from_north is compared modulo 360 (x % 360 in [0, 360))",
+            "a three-file list in which one file holds surplus traces is only counted, not judged",
+            "the repository's example files are read from /repo/test/data/input when present",
         ])
